@@ -545,4 +545,15 @@ theorem replace_breaks_terminator_counterexample :
         let t ← rd r.buf n
         pure (n, t)) = .ok (2, 121) := by decide
 
+/-- Wide strings: `wchar_t` is a signed 32-bit type on this target, so `basic_inplace_string<wchar_t, N>::compare` and the
+    relational operators have to order code units by their signed value (`C08.Spec.cmpSigned`, the spec column of the
+    driver on `ct=wchar` lines).  That comparison is the natural-order comparison of `compare_sign` /
+    `compare_pos_count_eq` / `compare_pos_count_pos_count_eq` applied to the images under `signedKey32`, which is what
+    the driver feeds to the model on those lines - for all strings of 32-bit patterns. -/
+theorem compare_wide_signed (a b : Spec.Str) (ha : ∀ u ∈ a, u < 4294967296) (hb : ∀ u ∈ b, u < 4294967296) :
+    C08.Spec.cmpSigned a b = C08.Spec.cmp (a.map C08.Spec.signedKey32) (b.map C08.Spec.signedKey32) :=
+  C08.Props.cmpSigned_eq_cmp_key a b ha hb
+
+example : C08.Spec.cmpSigned [1] [4294967040] = 1 ∧ C08.Spec.cmp [1] [4294967040] = -1 := by decide
+
 end Tetl.C04.Props
